@@ -119,7 +119,7 @@ impl Prop for C09 {
          real encoder through FramedWrite::send, concatenated, cut at 1..=8 generated split points (incl. inside the length \
          prefix) and fed chunk-wise to the real decoder: same frame sequence, never a bogus frame after a strict prefix, oversized \
          length prefix = error, truncation = error of FramedRead, and single-byte corruption at up to 272 offsets never panics and \
-         yields only re-encodable frames; (values) SignedEntry / Author / NamespaceSecret against an independent byte-layout \
+         yields only re-encodable frames; (values) SignedEntry / Author / NamespaceSecret / AuthorId / NamespaceId / head reports against an independent byte-layout \
          encoder and the suite's three golden snapshots, DocTicket (>= 1 node, bytes and string form), Capability (serde and raw), \
          DownloadPolicy, AuthorHeads round-trips; (hostile) random bytes and mutated valid encodings into each of the ten decoder \
          targets shared with the libFuzzer harness (no panic; Ok(v) => re-encoding round-trips). non-trivial = frames: >= 2 frames \
@@ -457,6 +457,64 @@ fn check_values(c: &ValuesCase, o: &mut Outcome) -> R<()> {
     if a2.to_bytes() != c.secret || n2.to_bytes() != c.secret || a2.id() != a.id() || n2.id() != n.id() {
         o.fail("C09/key-roundtrip", "key pair changed by encode/decode".to_string());
         return Ok(());
+    }
+    // the public halves: the 32 id bytes as they are (no length prefix) - that is also how they sit inside entries,
+    // tickets, head reports and every request that names an author or a document
+    if es(postcard::to_stdvec(&a.id()))? != a.id().as_bytes().to_vec() || es(postcard::to_stdvec(&n.id()))? != n.id().as_bytes().to_vec() {
+        o.fail("C09/pinned-key-layout", format!("AuthorId / NamespaceId do not encode as their 32 bytes: {} / {}", hex::encode(es(postcard::to_stdvec(&a.id()))?), hex::encode(es(postcard::to_stdvec(&n.id()))?)));
+        return Ok(());
+    }
+    let ida: iroh_docs::AuthorId = es(postcard::from_bytes(a.id().as_bytes()))?;
+    let idn: iroh_docs::NamespaceId = es(postcard::from_bytes(n.id().as_bytes()))?;
+    if ida != a.id() || idn != n.id() {
+        o.fail("C09/key-roundtrip", "an id changed by decode".to_string());
+        return Ok(());
+    }
+    // a head report: varint(count), then per head the varint timestamp and the 32 author id bytes (read back here by an
+    // independent decoder; the order of the heads is the encoder's business)
+    {
+        let mut heads = iroh_docs::AuthorHeads::default();
+        let mut want: std::collections::BTreeMap<[u8; 32], u64> = Default::default();
+        for (i, e) in c.entries.iter().enumerate() {
+            let id = Author::from_bytes(&[i as u8 ^ c.secret[0]; 32]).id();
+            let t = if i % 2 == 0 { c.raw_ts } else { crate::gen::ts_of(e.t) };
+            heads.insert(id, t);
+            let h = want.entry(id.to_bytes()).or_insert(0);
+            *h = (*h).max(t);
+        }
+        let bytes = es(heads.encode(None))?;
+        let mut got: std::collections::BTreeMap<[u8; 32], u64> = Default::default();
+        let mut pos = 0usize;
+        let mut read_varint = |pos: &mut usize| -> Option<u64> {
+            let mut v = 0u64;
+            let mut shift = 0;
+            loop {
+                let b = *bytes.get(*pos)?;
+                *pos += 1;
+                v |= ((b & 0x7F) as u64) << shift;
+                if b & 0x80 == 0 {
+                    return Some(v);
+                }
+                shift += 7;
+                if shift > 63 {
+                    return None;
+                }
+            }
+        };
+        let layout_ok = (|| {
+            let n = read_varint(&mut pos)?;
+            for _ in 0..n {
+                let t = read_varint(&mut pos)?;
+                let id: [u8; 32] = bytes.get(pos..pos + 32)?.try_into().ok()?;
+                pos += 32;
+                got.insert(id, t);
+            }
+            Some(pos == bytes.len())
+        })();
+        if layout_ok != Some(true) || got != want {
+            o.fail("C09/pinned-heads-layout", format!("a head report of {} heads encodes as {} which is not varint(count) + count x (varint timestamp + 32 id bytes) of exactly these heads", want.len(), hex::encode(&bytes)));
+            return Ok(());
+        }
     }
     // capability
     let cap = if c.cap_write { Capability::Write(n.clone()) } else { Capability::Read(n.id()) };
